@@ -145,6 +145,7 @@ package freelist
 //@   props C09 C08
 //@   requires t.pending != nil && t.cache != nil && t.allocs != nil
 //@   requires has(t.pending, txid) ==> reptxp(t.pending[txid], txid)
+//@   requires txid >= 1
 //@   panics when has(t.pending, txid) && (exists k int :: 0 <= k && k < len(t.pending[txid].ids) && t.pending[txid].alloctx[k] == txid)
 //@   ensures [nopend] !has(t.pending, txid)
 //@   ensures [otherpend] forall tid common.Txid :: tid != txid ==> has(t.pending, tid) == old(has(t.pending, tid)) && t.pending[tid] == old(t.pending[tid])
